@@ -3,7 +3,6 @@ import Stbem.Props.Formulas
 import Mathlib.Algebra.BigOperators.Group.Finset.Basic
 import Mathlib.Algebra.Module.LinearMap.Defs
 import Mathlib.Algebra.BigOperators.GroupWithZero.Action
-import Mathlib.Analysis.SpecialFunctions.Integrals.Basic
 import Mathlib.Tactic.Ring
 import Mathlib.Tactic.LinearCombination
 
@@ -56,19 +55,8 @@ theorem residual_mean_zero {F : Type*} [AddCommGroup F] [Module ℝ F] {n : ℕ}
   · exact_mod_cast c1
   · exact_mod_cast c2
 
-/-! ## the element integrals of the Dirichlet data in `problems.py` -/
-
-/-- `g = 1`: `∫_E 1 = h_t · h_x` -/
-theorem g_linform_dirichlet (a b c d : ℝ) :
-    ∫ _t in a..b, ∫ _x in c..d, (1 : ℝ) = (b - a) * (d - c) := by
-  simp [intervalIntegral.integral_const]; ring
-
-/-- `g = t²`: `∫_E t² = h_x (b³ − a³)/3` -/
-theorem g_linform_mildsingular (a b c d : ℝ) :
-    ∫ t in a..b, ∫ _x in c..d, t ^ 2 = 1 / 3 * (d - c) * (b ^ 3 - a ^ 3) := by
-  simp only [intervalIntegral.integral_const, smul_eq_mul]
-  rw [intervalIntegral.integral_const_mul, integral_pow]
-  ring
+/-! The element integrals of the Dirichlet data of `problems.py` (`g_linform_dirichlet`, `g_linform_mildsingular`) and
+all other statements about the problem definitions are in `Props/C03Problems.lean`, about terms generated from the source. -/
 
 /-! ## non-vacuity: a 1-element "mesh" with exact data -/
 
